@@ -56,6 +56,10 @@ var ErrClosed = errors.New("use of closed network connection")
 // others are environment deviations. nil means "everything available".
 var ReadAlts func(off int64, avail, want int) []int
 
+// EOFWithData: a Read that drains the buffer of a link whose peer has already closed returns the bytes TOGETHER
+// with io.EOF (the io.Reader contract allows it; callers must consume the bytes first). Reset clears it.
+var EOFWithData bool
+
 // WriteHook, if set, sees (and may alter a copy of) every chunk written;
 // name identifies the writing end.
 var WriteHook func(name string, off int64, p []byte) []byte
@@ -116,6 +120,7 @@ func Reset() {
 	world.links = 0
 	ReadAlts = nil
 	WriteHook = nil
+	EOFWithData = false
 }
 
 // Pipe creates a connected pair of link ends.
@@ -170,6 +175,9 @@ func (e *End) Read(p []byte) (int, error) {
 	copy(p, e.buf[:n])
 	e.buf = e.buf[n:]
 	e.nread += int64(n)
+	if EOFWithData && len(e.buf) == 0 && e.peer.closed {
+		return n, io.EOF
+	}
 	return n, nil
 }
 
